@@ -167,6 +167,8 @@ class Subroutine(Scope):
                 if arg_obj is None or i == drop_arg:
                     continue
                 arg, doc_str = arg_obj.get_hover()
+                if arg is None:
+                    continue
                 hover_array.append(arg)
                 if doc_str:  # If doc_str is not None or ""
                     if has_args:
